@@ -563,3 +563,7 @@ CHECKS["C11"]["exhaustive_note"] = "all 64 ordered pairs of the 8-operation alph
 CHECKS["C06"]["jobs"].append(J("table", AGENT, "TestC06Table", {"shards": 1, "timeout": 900}, toolchain="go126", rapid=False))
 CHECKS["C06"]["required_classes"]["all"] += ["authorisation-table-exhaustive"]
 CHECKS["C06"]["exhaustive_note"] = "the single-request authorisation table (endpoint x credential kind x target x actor x {exact, duplicate keys, missing field}) is enumerated completely on every run, each cell on a fresh agent"
+
+CHECKS["C01"]["jobs"].append(J("smallscope", VSTORE, "TestC01SmallScope", {"shards": 1, "timeout": 900}, rapid=False))
+CHECKS["C01"]["required_classes"]["all"] += ["small-scope-exhaustive"]
+CHECKS["C01"]["exhaustive_note"] = "all 2 x (7+49+343+2401) histories of up to 4 operations from a 7-operation alphabet on one user are enumerated on every run, with 6 password probes after every step"
